@@ -2,7 +2,7 @@ package harness
 
 // C11 - test cases are isolated: one case cannot change the outcome of another.
 // E2: every sequence over {Errorf, Skip, Errorf;Skip, cleanup-Errorf, cleanup-panic, pass, Fatalf}
-// of length <= 4 (quick) / 5 (thorough) for the first test cases of a run, followed by passes.
+// of length <= 3 (quick) / 4 (thorough) for the first test cases of a run, followed by passes.
 
 import (
 	"fmt"
@@ -10,15 +10,15 @@ import (
 	"time"
 )
 
-var c11Alpha = []Beh{BPass, BErrorf, BSkip, BErrorfSkip, BCleanupErrorf, BCleanupPanic, BFatalA, BCleanupPass}
+var c11Alpha = []Beh{BPass, BErrorf, BSkip, BErrorfSkip, BCleanupErrorf, BCleanupPanic, BFatalA, BCleanupPass, BCleanupErrorfSkip, BCleanupSkip, BErrorfReject}
 
 func c11Units(tier string, seed int64) []Unit {
 	quick := tier != "thorough"
 	var units []Unit
-	L := 4
+	L := 3
 	seeds := []uint64{uint64(seed)*131 + 5, uint64(seed)*131 + 77777}
 	if !quick {
-		L = 5
+		L = 4
 		seeds = append(seeds, uint64(seed)*131+9, uint64(seed)*131+31337)
 	}
 	for _, n := range []int{5, 20} {
@@ -116,7 +116,7 @@ func init() {
 	Register(&Check{
 		ID:    "C11",
 		Level: "model_checking",
-		Rule: "E2 lazyprop: all sequences over {pass, Errorf, Skip, Errorf;Skip, Cleanup(Errorf), Cleanup(panic), Fatalf, Cleanup(pass)} of length 4 (quick) / 5 (thorough) for the first test cases, then passes; checks in {5,20}; " +
+		Rule: "E2 lazyprop: all sequences over {pass, Errorf, Skip, Errorf;Skip, Cleanup(Errorf), Cleanup(panic), Fatalf, Cleanup(pass), Cleanup(Errorf);Skip, Cleanup(Skip), Errorf;rejected-draw} of length 3 (quick) / 4 (thorough) for the first test cases, then passes; checks in {5,20}; " +
 			"the case rapid treats as falsifying is identified by PRNG re-seeding events (reproduction uses the blamed case's seed) and must be the first case that really signalled. distinct = distinct (verdict class, sequence); non-trivial = some case signalled.",
 		Assumptions: []string{"inputs are practically unique per test case (64-bit draw), so a sequence of behaviours is a sequence of test cases"},
 		Units:       c11Units,
